@@ -1,0 +1,150 @@
+//! Verification hooks (only compiled with `--cfg softposit_verif`): when the environment
+//! variable SOFTPOSIT_VERIF_TRACE names a file, the non-const entry points of the crate append
+//! one ndjson event per call to it (operands and results as base-2^15 limb arrays), for
+//! validation against the TLA+ specification in /verif.  Sampling: every
+//! SOFTPOSIT_VERIF_STRIDE-th event (default 1), at most SOFTPOSIT_VERIF_CAP events (default
+//! 200000).  Without the variable the hooks do nothing.
+extern crate std;
+use std::format;
+use std::fs::File;
+use std::io::Write;
+use std::string::String;
+use std::sync::Mutex;
+
+struct St {
+    init: bool,
+    f: Option<File>,
+    written: u64,
+    cap: u64,
+    stride: u64,
+    tick: u64,
+}
+static ST: Mutex<St> = Mutex::new(St { init: false, f: None, written: 0, cap: 0, stride: 1, tick: 0 });
+
+fn emit(mk: impl FnOnce() -> String) {
+    let mut st = match ST.lock() {
+        Ok(s) => s,
+        Err(_) => return,
+    };
+    if !st.init {
+        st.init = true;
+        if let Ok(p) = std::env::var("SOFTPOSIT_VERIF_TRACE") {
+            st.f = File::create(p).ok();
+            st.cap = std::env::var("SOFTPOSIT_VERIF_CAP").ok().and_then(|s| s.parse().ok()).unwrap_or(200_000);
+            st.stride = std::env::var("SOFTPOSIT_VERIF_STRIDE").ok().and_then(|s| s.parse().ok()).unwrap_or(1);
+            if st.stride == 0 {
+                st.stride = 1;
+            }
+        }
+    }
+    if st.f.is_none() || st.written >= st.cap {
+        return;
+    }
+    st.tick += 1;
+    if st.tick % st.stride != 0 {
+        return;
+    }
+    let line = mk();
+    st.written += 1;
+    if let Some(f) = st.f.as_mut() {
+        let _ = f.write_all(line.as_bytes());
+        let _ = f.write_all(b"\n");
+    }
+}
+
+/// little-endian 64-bit words -> JSON array of base-2^15 limbs (canonical: no high zero limb)
+fn limbs(w: &[u64]) -> String {
+    let nbits = w.len() * 64;
+    let mut out: std::vec::Vec<u64> = std::vec::Vec::new();
+    let mut pos = 0;
+    while pos < nbits {
+        let wi = pos / 64;
+        let off = pos % 64;
+        let mut v = w[wi] >> off;
+        if off + 15 > 64 && wi + 1 < w.len() {
+            v |= w[wi + 1] << (64 - off);
+        }
+        out.push(v & 0x7fff);
+        pos += 15;
+    }
+    while let Some(&0) = out.last() {
+        out.pop();
+    }
+    let mut s = String::from("[");
+    for (i, d) in out.iter().enumerate() {
+        if i > 0 {
+            s.push(',');
+        }
+        s.push_str(&format!("{}", d));
+    }
+    s.push(']');
+    s
+}
+
+fn tag(bits: u32) -> &'static str {
+    match bits {
+        8 => "p8",
+        16 => "p16",
+        _ => "p32",
+    }
+}
+
+/// the bit image of a quire as little-endian words
+pub trait QuireWords {
+    fn words(&self) -> std::vec::Vec<u64>;
+}
+impl QuireWords for u32 {
+    fn words(&self) -> std::vec::Vec<u64> {
+        std::vec![*self as u64]
+    }
+}
+impl QuireWords for u128 {
+    fn words(&self) -> std::vec::Vec<u64> {
+        std::vec![*self as u64, (*self >> 64) as u64]
+    }
+}
+impl QuireWords for [u64; 8] {
+    fn words(&self) -> std::vec::Vec<u64> {
+        let mut v = self.to_vec();
+        v.reverse();
+        v
+    }
+}
+
+pub fn bin(op: &'static str, bits: u32, a: u64, b: u64, r: u64) {
+    emit(|| {
+        format!(
+            "{{\"op\":\"{}\",\"t\":\"{}\",\"sp\":\"hook\",\"a\":{},\"b\":{},\"o\":\"ok\",\"r\":{}}}",
+            op, tag(bits), limbs(&[a]), limbs(&[b]), limbs(&[r])
+        )
+    })
+}
+
+pub fn un(op: &'static str, bits: u32, a: u64, r: u64) {
+    emit(|| {
+        format!(
+            "{{\"op\":\"{}\",\"t\":\"{}\",\"sp\":\"hook\",\"a\":{},\"o\":\"ok\",\"r\":{}}}",
+            op, tag(bits), limbs(&[a]), limbs(&[r])
+        )
+    })
+}
+
+/// one quire update: `pre` and `post` are the bit images before and after `q (+|-)= a*b` (or `a`)
+pub fn qstep<W: QuireWords>(bits: u32, sub: bool, single: bool, a: u64, b: u64, pre: W, post: W) {
+    emit(|| {
+        format!(
+            "{{\"op\":\"q_step\",\"t\":\"{}\",\"sp\":\"hook\",\"sub\":{},\"single\":{},\"a\":{},\"b\":{},\"pre\":{},\"bits\":{},\"o\":\"ok\"}}",
+            tag(bits), sub, single, limbs(&[a]), limbs(&[b]), limbs(&pre.words()), limbs(&post.words())
+        )
+    })
+}
+
+/// rounding a quire to its posit
+pub fn qround<W: QuireWords>(bits: u32, pre: W, r: u64) {
+    emit(|| {
+        format!(
+            "{{\"op\":\"q_round\",\"t\":\"{}\",\"sp\":\"hook\",\"pre\":{},\"o\":\"ok\",\"r\":{}}}",
+            tag(bits), limbs(&pre.words()), limbs(&[r])
+        )
+    })
+}
